@@ -216,6 +216,12 @@ def cast(t, to_dtype: torch.dtype, from_dtype=None):
             return z3.If(t >= 0, fl, z3.If(z3.ToReal(fl) == t, fl, fl + 1))
         if z3.is_fp_sort(target):
             return z3.fpRealToFP(RNE, t, target)
+    if z3.is_fp(t) and target == z3.IntSort():
+        v = num_value(t)
+        if v is not None and v == v and abs(v) != float("inf"):
+            return z3.IntVal(int(v))
+        r = z3.fpToReal(t)
+        return z3.If(r >= 0, z3.ToInt(r), -z3.ToInt(-r))  # truncation toward zero (NaN/inf: unspecified, as in torch)
     if z3.is_fp(t):
         if z3.is_fp_sort(target):
             v = num_value(t)
